@@ -483,6 +483,26 @@ impl FailSafe {
                 .intersects(NocFlags::ADD_NOC_RECVD | NocFlags::UPDATE_NOC_RECVD)
     }
 
+    /// Whether the in-memory record of the fabric `caller_fab_idx` carries changes staged under
+    /// the current fail-safe context that are not in its stored copy yet: an in-flight `AddNOC` /
+    /// `UpdateNOC` (see [`FailSafe::has_pending_noc_for`]), or a fabric-scoped write (ACL, groups,
+    /// group keys, fabric label) whose store was deferred (see [`FailSafe::defers_store_for`]).
+    ///
+    /// The fabric is persisted as ONE record. Whoever wants to store it outside of
+    /// `CommissioningComplete` must not do so while this returns `true`: the staged changes
+    /// would become permanent, and the expiry of the fail-safe - which re-loads the stored
+    /// copy - would no longer undo them.
+    pub fn has_pending_changes_for(&self, caller_fab_idx: NonZeroU8) -> bool {
+        let State::Armed(ctx) = &self.state else {
+            return false;
+        };
+        ctx.fab_idx == caller_fab_idx.get()
+            && (ctx.deferred
+                || ctx
+                    .flags
+                    .intersects(NocFlags::ADD_NOC_RECVD | NocFlags::UPDATE_NOC_RECVD))
+    }
+
     /// Whether the fabric with index `fab_idx` was added by an `AddNOC` under the current
     /// fail-safe context, i.e. it is not committed yet and has no stored record of its own.
     pub fn is_adding_fabric(&self, fab_idx: NonZeroU8) -> bool {
